@@ -120,6 +120,13 @@ class AbsInt:
 
     def _struct_value(self, bb, rv, store):
         """("v", adt, variant, index, components) for aggregates of tracked ADTs."""
+        if rv.get("agg") == "tuple" and rv["ops"]:
+            # `match (exit, stop_result) {..}`: a tuple of tracked values is tracked component-wise
+            comps = [self._eval_operand(op, store) for op in rv["ops"]]
+            if not any(c is not None and c[0] in ("v", "e", "c") for c in comps):
+                return None
+            comps = [c if c is not None else ("t", self.tr.norm(self.tr.operand(op))) for c, op in zip(comps, rv["ops"])]
+            return ("v", "(tuple)", None, 0, tuple(comps))
         if rv.get("agg") != "adt" or not rv["ops"]:
             return None
         adt = rv["adt"]
